@@ -15,7 +15,7 @@ func ip(i int) *int       { return &i }
 func i64p(i int64) *int64 { return &i }
 
 var propPool = []string{"p0", "p1", "p2", "p3"}
-var strPool = []string{"a", "b", "cc", "ddd", "1", "true", "t\tb"}
+var strPool = []string{"a", "b", "cc", "ddd", "1", "true", "t\tb", "C:\\temp\\new"} // (the last one: backslashes before letters that would be escapes)
 
 func nodeId(i int) string { return fmt.Sprintf("%s%d", NodeNS, i) }
 
